@@ -797,3 +797,85 @@ package gts
 //@   ensures table: forall k in 0..len(bytesOf(out)): ite(lc(int(old(bytesOf(seq)[k]))) == 'a', lc(int(bytesOf(out)[k])) == 'u' && isUpper(int(bytesOf(out)[k])) == isUpper(int(old(bytesOf(seq)[k]))),
 //@        complOK(int(old(bytesOf(seq)[k])), int(bytesOf(out)[k])))
 //@   assigns nothing
+
+// locWithin / locOverlap: LocationWithin / LocationOverlap as pure functions of their arguments.
+//@ spec func locWithin(l Location, lower int, upper int) bool uninterpreted
+//@ spec func locOverlap(l Location, lower int, upper int) bool uninterpreted
+//@ func LocationWithin(loc Location, lower, upper int) (r bool)
+//@   trusted recursive over nested locations; the leaf case is rangeWithin (proved); assumed pure and deterministic
+//@   ensures r == locWithin(loc, lower, upper)
+//@   assigns nothing
+//@ func LocationOverlap(loc Location, lower, upper int) (r bool)
+//@   trusted recursive over nested locations; the leaf case is rangeOverlap (proved); assumed pure and deterministic
+//@   ensures r == locOverlap(loc, lower, upper)
+//@   assigns nothing
+
+//@ func asComplete(loc Location) (out Location)
+//@   trusted recursive; it rewrites the part lists of the Joined/Ordered value it is given (and nothing else)
+//@   ensures !isnil(loc) ==> !isnil(out)
+//@   assigns heap(Location)
+
+//@ func Erase(seq Sequence, offset, length int) (out Sequence)
+//@   prop C03 C11
+//@   requires !isnil(seq) && 0 <= offset && 0 <= length && offset + length <= len(bytesOf(seq)) && oldSeq(seq)
+//@   ensures !isnil(out) && len(bytesOf(out)) == len(bytesOf(seq)) - length && fresh(bytesOf(out))
+//@   ensures head: forall k in 0..offset: bytesOf(out)[k] == old(bytesOf(seq)[k])
+//@   ensures tail: forall k in offset..len(bytesOf(out)): bytesOf(out)[k] == old(bytesOf(seq)[k+length])
+//@   ensures count: len(featsOf(out)) <= len(featsOf(seq)) && fresh(featsOf(out))
+//@   assigns nothing
+
+//@ func Slice(seq Sequence, start, end int) (out Sequence)
+//@   prop C03 C11 C10
+//@   requires !isnil(seq) && oldSeq(seq) && coord(len(bytesOf(seq)))
+//@   requires 0 <= start && start <= end && end <= len(bytesOf(seq))
+//@   ensures !isnil(out) && len(bytesOf(out)) == end - start && fresh(bytesOf(out))
+//@   ensures window: forall k in 0..end-start: bytesOf(out)[k] == old(bytesOf(seq)[start+k])
+//@   ensures count: len(featsOf(out)) <= len(featsOf(seq)) && fresh(featsOf(out))
+//@   ensures unchanged(bytesOf(seq)) && unchanged(featsOf(seq))
+//@   loop 1: invariant fresh(ff) && len(ff) <= len(featsOf(seq)) && unchanged(bytesOf(seq)) && unchanged(featsOf(seq))
+//@   loop 1: decreases len(ff) - i
+
+// Negative indices count from the end; a window with end < start wraps past the end.
+//@ func Slice@neg(seq Sequence, start, end int) (out Sequence)
+//@   prop C03
+//@   requires !isnil(seq) && oldSeq(seq) && coord(len(bytesOf(seq)))
+//@   requires -len(bytesOf(seq)) <= start && start <= len(bytesOf(seq)) && -len(bytesOf(seq)) <= end && end <= len(bytesOf(seq))
+//@   requires ite(start < 0, start + len(bytesOf(seq)), start) <= ite(end < 0, end + len(bytesOf(seq)), end)
+//@   ensures !isnil(out) && len(bytesOf(out)) == ite(end < 0, end + len(bytesOf(seq)), end) - ite(start < 0, start + len(bytesOf(seq)), start) && fresh(bytesOf(out))
+//@   ensures window: forall k in 0..len(bytesOf(out)): bytesOf(out)[k] == old(bytesOf(seq)[ite(start < 0, start + len(bytesOf(seq)), start) + k])
+//@   loop 1: invariant fresh(ff) && unchanged(bytesOf(seq))
+//@   loop 1: decreases len(ff) - i
+
+//@ func Slice@wrap(seq Sequence, start, end int) (out Sequence)
+//@   prop C03
+//@   requires !isnil(seq) && oldSeq(seq) && coord(len(bytesOf(seq))) && 0 < len(bytesOf(seq))
+//@   requires 0 <= end && end < start && start <= len(bytesOf(seq))
+//@   ensures !isnil(out) && len(bytesOf(out)) == len(bytesOf(seq)) - start + end && fresh(bytesOf(out))
+//@   ensures upper: forall k in 0..len(bytesOf(seq))-start: bytesOf(out)[k] == old(bytesOf(seq)[start+k])
+//@   ensures lower: forall k in 0..end: bytesOf(out)[len(bytesOf(seq))-start+k] == old(bytesOf(seq)[k])
+//@   loop 1: invariant fresh(ff)
+//@   loop 1: decreases len(ff) - i
+
+//@ func Concat(ss ...Sequence) (out Sequence)
+//@   prop C10 C11
+//@   requires forall k in 0..len(ss): !isnil(ss[k])
+//@   ensures !isnil(out)
+//@   ensures len(ss) >= 2 ==> fresh(bytesOf(out))
+//@   assigns nothing
+//@   loop 1: invariant fresh(p) && !isnil(head)
+//@   loop 1: decreases len(tail) - idx1
+//@   loop 2: invariant fresh(p) && !isnil(head)
+//@   loop 2: decreases len(featsOf(seq)) - idx2
+
+// Two pieces: the residues are the first piece followed by the second.
+//@ func Concat@two(ss ...Sequence) (out Sequence)
+//@   prop C10
+//@   requires len(ss) == 2 && !isnil(ss[0]) && !isnil(ss[1])
+//@   ensures !isnil(out) && len(bytesOf(out)) == len(bytesOf(ss[0])) + len(bytesOf(ss[1])) && fresh(bytesOf(out))
+//@   ensures first: forall k in 0..len(bytesOf(ss[0])): bytesOf(out)[k] == old(bytesOf(ss[0])[k])
+//@   ensures second: forall k in 0..len(bytesOf(ss[1])): bytesOf(out)[len(bytesOf(ss[0]))+k] == old(bytesOf(ss[1])[k])
+//@   ensures count: len(featsOf(out)) == len(featsOf(ss[0])) + len(featsOf(ss[1]))
+//@   assigns nothing
+//@   loop 1: unroll 1
+//@   loop 2: invariant len(ff) == len(featsOf(ss[0])) + idx2 && (fresh(ff) || idx2 == 0)
+//@   loop 2: decreases len(featsOf(seq)) - idx2
